@@ -3,7 +3,7 @@
 import random, struct, sys
 from pathlib import Path
 sys.path.insert(0, str(Path(__file__).resolve().parent))
-import sqfs_forge as F
+import sqfs_forge_c05 as F
 OUT = Path(__file__).resolve().parent.parent / "corpus" / "C05"
 OUT.mkdir(parents=True, exist_ok=True)
 
